@@ -291,7 +291,7 @@ Definition p_close_delim (x : st) (i : input) : bool :=
 
 (** an abort is only ever emitted once bytes of the response are on the wire *)
 Definition p_abort_started (x : st) (i : input) : bool :=
-  forallb (fun e => match e with EvAbort b => b | _ => true end) (evs x i).
+  c_h2 (snd x) || forallb (fun e => match e with EvAbort b => b | _ => true end) (evs x i).
 
 (** isolation, connection side: on an H2 frontend nothing a backend does to one
     stream closes the shared connection, un-arms its timer or withdraws WRITABLE *)
@@ -431,6 +431,23 @@ End Lift.
 Lemma init_in_reach h2 : In (fresh, init_conn h2) reach0.
 Proof. apply inits_in_reach; destruct h2; cbn; auto. Qed.
 
+(** the protocol of the frontend never changes along a run *)
+Definition p_h2 (redir : option N) (x : st) (i : input) : bool :=
+  Bool.eqb (c_h2 (snd x)) (c_h2 (snd (nxt redir x i))).
+Lemma reach_h2 : forall redir, check_all reach0 (p_h2 redir) = true.
+Proof. intros redir. vm_cast_no_check (eq_refl true). Qed.
+
+Lemma h2_constant redir h2 history :
+  c_h2 (snd (run_st redir (fresh, init_conn h2) history)) = h2.
+Proof.
+  induction history as [|i hist IH] using rev_ind; [reflexivity|].
+  rewrite run_st_app. cbn [run_st].
+  set (y := run_st redir (fresh, init_conn h2) hist) in *.
+  assert (Hy : In y reach0) by (apply run_st_in_reach, init_in_reach).
+  pose proof (check_all_spec _ _ (reach_h2 redir) y i Hy) as L.
+  unfold p_h2 in L. apply Bool.eqb_prop in L. rewrite <- L. exact IH.
+Qed.
+
 Lemma one_answer_proof :
   forall (redir : option N) (h2 : bool) (inputs : list input),
     mon_run (mkM false false) (run gen_tables redir (fresh, init_conn h2) inputs) <> None.
@@ -493,7 +510,7 @@ Lemma status_matches_cause_proof :
   (forall v, teval v (t_esd gen_tables) = teval v spec_esd) /\
   (forall s v, teval v (t_ft gen_tables s) = teval v (spec_ft s)) /\
   (forall v, teval v (t_bt gen_tables) = teval v spec_bt) /\
-  (forall h2 a, t_end_arm gen_tables h2 a = spec_end_arm h2 a) /\
+  (forall h2 a v, teval v (t_end_arm gen_tables h2 a) = teval v (spec_end_arm h2 a)) /\
   t_known_codes gen_tables = spec_known_codes /\
   t_retries gen_tables = 3%nat /\ t_guard_ge gen_tables = true.
 Proof.
@@ -503,7 +520,7 @@ Proof.
   - intros v. by_valuation v.
   - intros s v. destruct s; by_valuation v.
   - intros v. by_valuation v.
-  - intros h2 a; destruct h2, a; reflexivity.
+  - intros h2 a v; destruct h2, a; by_valuation v.
   - reflexivity.
   - reflexivity.
   - reflexivity.
@@ -567,15 +584,17 @@ Proof.
 Qed.
 
 Lemma abort_only_after_start_proof :
-  forall (redir : option N) (h2 : bool) (history : list input) (i : input) (b : bool),
-    let x := run_st redir (fresh, init_conn h2) history in
+  forall (redir : option N) (history : list input) (i : input) (b : bool),
+    let x := run_st redir (fresh, init_conn false) history in
     In (EvAbort b) (evs redir x i) -> b = true.
 Proof.
-  intros redir h2 history i b x Hin.
+  intros redir history i b x Hin.
   assert (Hx : In x reach0) by (apply run_st_in_reach, init_in_reach).
   pose proof (local redir x i Hx) as L. apply split_p_all in L.
   destruct L as (_ & _ & _ & _ & _ & _ & _ & _ & _ & _ & _ & L & _).
-  unfold p_abort_started in L. rewrite forallb_forall in L. exact (L _ Hin).
+  unfold p_abort_started in L.
+  assert (Hh : c_h2 (snd x) = false) by (subst x; apply h2_constant).
+  rewrite Hh in L. cbn [orb] in L. rewrite forallb_forall in L. exact (L _ Hin).
 Qed.
 
 Lemma bounded_wait_proof :
@@ -611,23 +630,6 @@ Proof.
   destruct L as (_ & _ & _ & _ & _ & _ & _ & _ & _ & _ & L & _ & _).
   unfold p_close_delim, has_ev in L. rewrite Hr, Hh, Hk in L. cbn in L.
   apply andb_true_iff in L. exact L.
-Qed.
-
-(** the protocol of the frontend never changes along a run *)
-Definition p_h2 (redir : option N) (x : st) (i : input) : bool :=
-  Bool.eqb (c_h2 (snd x)) (c_h2 (snd (nxt redir x i))).
-Lemma reach_h2 : forall redir, check_all reach0 (p_h2 redir) = true.
-Proof. intros redir. vm_cast_no_check (eq_refl true). Qed.
-
-Lemma h2_constant redir h2 history :
-  c_h2 (snd (run_st redir (fresh, init_conn h2) history)) = h2.
-Proof.
-  induction history as [|i hist IH] using rev_ind; [reflexivity|].
-  rewrite run_st_app. cbn [run_st].
-  set (y := run_st redir (fresh, init_conn h2) hist) in *.
-  assert (Hy : In y reach0) by (apply run_st_in_reach, init_in_reach).
-  pose proof (check_all_spec _ _ (reach_h2 redir) y i Hy) as L.
-  unfold p_h2 in L. apply Bool.eqb_prop in L. rewrite <- L. exact IH.
 Qed.
 
 (** isolation: stream j has any history on an H2 connection; stream i's record
